@@ -352,7 +352,7 @@ func mergeOnePairOpts(c *Ctx, t *w2aTarget, lazyDense bool) {
 		default:
 			// model line: decode x, then decode y into the result
 			mi, _ := w2aUnmarshal(fl, x, proto.UnmarshalOptions{NoLazyDecoding: true})
-			ei := proto.UnmarshalOptions{Merge: true, AllowPartial: true, NoLazyDecoding: true}.Unmarshal(y, mi.Interface())
+			ei := w2aOpts(fl, proto.UnmarshalOptions{Merge: true, AllowPartial: true, NoLazyDecoding: true}).Unmarshal(y, mi.Interface())
 			if ei != nil {
 				c.PropFail("C07", "y decodes into a fresh message but not into Unmarshal(x): "+fl.what(), HexB(x), HexB(y))
 			} else {
@@ -360,7 +360,7 @@ func mergeOnePairOpts(c *Ctx, t *w2aTarget, lazyDense bool) {
 			}
 			// UnmarshalOptions{Merge:true} (same laziness as the other decodes) vs Merge(m, Unmarshal(y))
 			m3, _ := w2aUnmarshal(fl, x, o)
-			o3 := o
+			o3 := w2aOpts(fl, o)
 			o3.Merge, o3.AllowPartial = true, true
 			if err := o3.Unmarshal(y, m3.Interface()); err != nil {
 				c.PropFail("C07", "UnmarshalOptions{Merge:true} fails on decodable input: "+fl.what(), HexB(x), HexB(y))
